@@ -89,6 +89,8 @@ def _work(engine_name, prop, tier, seed, indices, keep_records):
                 oc = {"harness_error": traceback.format_exc()}
             summ = {"i": i, "run_seed": rs}
             summ.update(oc)
+            if oc.get("aborted"):
+                summ["record"] = rec
             if oc.get("violation") or oc.get("harness_error") or i in keep_records:
                 summ["record"] = rec
             out.append(summ)
@@ -470,6 +472,8 @@ def run_check(engine_name, prop, tier, seed):
         print("VIOLATION property=%s replay=%s" % (prop, path))
     print("summary %s: runs=%d nontrivial_distinct=%d steps=%d violations=%d known=%d wall=%.1fs runs/h=%d faults=%s" % (
         prop, len(good), len(sigs_nontrivial), steps, len(reported), len(known_hits), wall, coverage["runs_per_hour"], json.dumps(faults, sort_keys=True)))
+    if len(aborted) > max(3, len(summaries) // 50):
+        harness_errors.append("%d of %d runs were discarded by the resource guard (more than 2%%)" % (len(aborted), len(summaries)))
     if reported:
         return 1, ev
     if harness_errors:
